@@ -101,6 +101,14 @@ Theorem c06_spec_ok c sch s :
 Proof. exact (spec_reach c sch s). Qed.
 Print Assumptions c06_spec_ok.
 
+(** the model never sends on the closed input channel (in Go that would be a panic):
+    whenever a step makes the export buffer longer, the channel is still open *)
+Theorem c06_no_send_on_closed c sch s a s' :
+  valid c -> exec c sch = Some s -> step c s a = Some s' ->
+  length (input s) < length (input s') -> closed s = false.
+Proof. exact (p_no_send_on_closed c sch s a s'). Qed.
+Print Assumptions c06_no_send_on_closed.
+
 (** ** The literal statement is false of the code as it is: witnesses (known findings) *)
 Definition strict_fails (c : config) (sch : list action) : bool :=
   match exec c sch with
